@@ -130,7 +130,8 @@ type objInfo struct {
 
 var harnessFiles = map[string]bool{"/cases.txt": true, "/impl.txt": true, "/oracle.txt": true, "/stats.json": true, "/tmp": true}
 
-// snapshot of everything that is neither the working directory nor below it
+// snapshot of everything that is not below the working directory (of the working
+// directory itself: existence, type and identity, not its mode)
 func snapshotOutside() map[string]objInfo {
 	out := map[string]objInfo{}
 	var rec func(p string)
@@ -158,7 +159,12 @@ func snapshotOutside() map[string]objInfo {
 		default:
 			o.Type = "o"
 		}
-		if p != "/" && p != wdDir { // the working directory itself is the store's own
+		if p == wdDir {
+			// the working directory's own attributes are the store's; its entry in the
+			// parent directory (existence, type, identity) is not
+			o.Mode = 0
+		}
+		if p != "/" {
 			out[p] = o
 		}
 		if o.Type == "d" && p != wdDir {
@@ -342,7 +348,7 @@ func modelLine(c Case, cfg string) string {
 	return sb.String()
 }
 
-var modelCfg = "11111"
+var modelCfg = "111111"
 
 func runCase(c Case) {
 	id := run.NewID()
@@ -753,6 +759,45 @@ func genTemplate(r *common.Rand) Case {
 	return c
 }
 
+func entryAlphabet(names, targets []string) []Entry {
+	var a []Entry
+	for _, n := range names {
+		a = append(a, Entry{Kind: "r", Name: n}, Entry{Kind: "d", Name: n})
+		for _, t := range targets {
+			a = append(a, Entry{Kind: "s", Name: n, Target: t}, Entry{Kind: "h", Name: n, Target: t})
+		}
+	}
+	return a
+}
+
+func enumerate(alpha []Entry, k int, tail []Push) {
+	idx := make([]int, k)
+	for {
+		es := make([]Entry, k)
+		for i, j := range idx {
+			es[i] = alpha[j]
+			if es[i].Kind == "r" {
+				es[i].Tag = i + 1
+			}
+		}
+		c := Case{Prep: basePrep(), Origin: fmt.Sprintf("exhaustive-%d", k)}
+		c.Pushes = append([]Push{{Kind: "U", Title: "t", Entries: es}}, tail...)
+		runCase(c)
+		i := k - 1
+		for i >= 0 {
+			idx[i]++
+			if idx[i] < len(alpha) {
+				break
+			}
+			idx[i] = 0
+			i--
+		}
+		if i < 0 {
+			return
+		}
+	}
+}
+
 func replay(pathname string, raw []byte) {
 	var doc struct {
 		Cases []json.RawMessage `json:"cases"`
@@ -787,8 +832,8 @@ func replay(pathname string, raw []byte) {
 func main() {
 	run = common.Start("C11")
 	defer run.Finish()
-	run.Rule = "cases = pre-populated tree + 1..3 pushes (named blob or tar+gzip to unpack, 1..6 entries over reg/dir/symlink/hardlink/other); names, titles and link targets from a grammar of segments, '..', '.', empty segments, absolute forms, earlier entry names and cwd decoys, plus perturbed attack templates; distinct = distinct case line; non-trivial = at least one push accepted"
-	if v := os.Getenv("C11_CFG"); len(v) == 5 {
+	run.Rule = "exhaustive: every 2-entry archive over 3 names x {reg,dir,symlink,hardlink} x 6 targets (thorough: + follow-up blobs, + all 3-entry archives over a sub-alphabet); random: cases = pre-populated tree + 1..3 pushes (named blob or tar+gzip to unpack, 1..6 entries over reg/dir/symlink/hardlink/other); names, titles and link targets from a grammar of segments, '..', '.', empty segments, absolute forms, earlier entry names and cwd decoys, plus perturbed attack templates; distinct = distinct case line; non-trivial = at least one push accepted"
+	if v := os.Getenv("C11_CFG"); len(v) == 6 {
 		modelCfg = v
 	}
 	var replayData []byte
@@ -820,8 +865,23 @@ func main() {
 		os.RemoveAll(sbRoot)
 		return
 	}
+	// small-scope exhaustive part: every sequence of two entries over a small alphabet of
+	// kinds, names and targets (thorough: also followed by a named blob through the names,
+	// and all triples over a sub-alphabet)
+	alpha := entryAlphabet([]string{"t/a", "t/b", "t/a/c"},
+		[]string{"..", "a", "a/../../victim", "b/..", "secret.txt", wdDir + "/t/a"})
+	tails := [][]Push{nil}
+	if run.Thorough() {
+		tails = append(tails, []Push{{Kind: "B", Title: "t/a/victim", Tag: 9}}, []Push{{Kind: "B", Title: "t/b/c/x", Tag: 9}})
+	}
+	for _, tail := range tails {
+		enumerate(alpha, 2, tail)
+	}
+	if run.Thorough() {
+		enumerate(entryAlphabet([]string{"t/a", "t/a/c"}, []string{"..", "a", "a/../../victim", wdDir + "/t/a"}), 3, nil)
+	}
 	r := run.Rand
-	n := run.Scale(2500, 60000)
+	n := run.Scale(800, 12000)
 	for i := 0; i < n; i++ {
 		if i%5 == 0 {
 			runCase(genTemplate(r))
